@@ -194,10 +194,11 @@ def plan(tier):
     cross4 = {1, 2, 3, 4, 5, 8, 9, 20, 40, 41, 60, 80} | (set() if quick else {81, 100, 150, 200, 271, 272})
     for N in range(1, top4 + 1):
         tasks.append(("cube4D", N, "both" if N in cross4 else ("factory" if N <= 40 else "novor")))
-        tasks.append(("randomQ", N, "both" if N in cross4 else "factory"))
+        tasks.append(("randomQ", N, "both" if N in cross4 else ("factory" if N <= 80 else "novor")))
     desc["cube4D"] = ("every N in 1..%d (levels 0-2); Factory.create for N <= 40, no-Voronoi path above, both paths "
                       "compared bitwise for N in %s" % (top4, sorted(cross4)))
-    desc["randomQ"] = "every N in 1..%d, Factory.create; no-Voronoi path compared bitwise for N in %s" % (top4, sorted(cross4))
+    desc["randomQ"] = ("every N in 1..%d; Factory.create for N <= 80, no-Voronoi path above, both paths compared bitwise "
+                       "for N in %s" % (top4, sorted(cross4)))
     tasks += [("fulldiv", 8, "both"), ("fulldiv", 40, "both")]
     if quick:
         desc["fulldiv"] = "N in {8, 40}, both paths; refused N: 11 values"
